@@ -149,6 +149,106 @@ def uninstallMethod (n : Node) (name : String) : Option Node :=
 """
 
 
+def _ctor_ok(st: ast.stmt) -> bool:
+    """`if software_config is None: software = software_class(…) else: software = software_class(…, config=software_config)`"""
+    if not (isinstance(st, ast.If) and ast.unparse(st.test) == "software_config is None" and len(st.body) == 1 and len(st.orelse) == 1):
+        return False
+    for b, with_cfg in ((st.body[0], False), (st.orelse[0], True)):
+        if not (isinstance(b, ast.Assign) and ast.unparse(b.targets[0]) == "software" and isinstance(b.value, ast.Call)
+                and ast.unparse(b.value.func) == "software_class" and not b.value.args):
+            return False
+        kws = {k.arg: ast.unparse(k.value) for k in b.value.keywords}
+        if ("config" in kws) != with_cfg or (with_cfg and kws["config"] != "software_config"):
+            return False
+    return True
+
+
+def _in_block(stmts: List[ast.stmt], kind: str, ind: int) -> str:
+    """statements of `install` after the constructor, for an object of the given kind (`isinstance` tests evaluated), threading
+    `st : Node` (registries) and `o` (the new object)"""
+    pad = "  " * ind
+    if not stmts:
+        heap = "svcs" if kind == "svc" else "apps"
+        fld = "s" if kind == "svc" else "a"
+        return (f"{pad}some {{ st with {heap} := st.{heap} ++ [{{ m := {{ uid := u, cls := c, listen := listen }}, {fld} := o }}], "
+                f"next := u + 1 }}")
+    st, rest = stmts[0], stmts[1:]
+    s = ast.unparse(st)
+    Obj = "Svc" if kind == "svc" else "App"
+    if _is_log(st) or s in ("software.parent = self.node", "software.software_manager = self"):
+        return _in_block(rest, kind, ind)
+    if isinstance(st, ast.If) and ast.unparse(st.test) == "software.name in self.software" and not st.orelse:
+        inner = [x for x in st.body if not _is_log(x)]
+        if [ast.unparse(x) for x in inner] != ["self.uninstall(software.name)"]:
+            raise Unsupported("eviction branch of install: " + "; ".join(ast.unparse(x) for x in inner))
+        return (f"{pad}(if dhas c.name st.software then uninstallMethod st c.name else some st).bind fun st =>\n" + _in_block(rest, kind, ind))
+    if isinstance(st, ast.If) and ast.unparse(st.test).startswith("isinstance(software, "):
+        cur, chosen = st, None
+        while True:
+            t = ast.unparse(cur.test)
+            if t not in ("isinstance(software, Application)", "isinstance(software, Service)"):
+                raise Unsupported("test in install: " + t)
+            if (t == "isinstance(software, Application)") == (kind == "app"):
+                chosen = cur.body
+                break
+            if len(cur.orelse) == 1 and isinstance(cur.orelse[0], ast.If):
+                cur = cur.orelse[0]
+                continue
+            chosen = cur.orelse
+            break
+        return _in_block(list(chosen) + rest, kind, ind)
+    if s == "self.node.applications[software.uuid] = software":
+        return f"{pad}let st : Node := {{ st with applications := st.applications ++ [u] }}\n" + _in_block(rest, kind, ind)
+    if s == "self.node.services[software.uuid] = software":
+        return f"{pad}let st : Node := {{ st with services := st.services ++ [u] }}\n" + _in_block(rest, kind, ind)
+    if s == "self.node._application_request_manager.add_request(software.name, RequestType(func=software._request_manager))":
+        return f"{pad}let st : Node := {{ st with appRoutes := dset c.name u st.appRoutes }}\n" + _in_block(rest, kind, ind)
+    if s == "self.node._service_request_manager.add_request(software.name, RequestType(func=software._request_manager))":
+        return f"{pad}let st : Node := {{ st with svcRoutes := dset c.name u st.svcRoutes }}\n" + _in_block(rest, kind, ind)
+    if s == "software.start()" and kind == "svc":
+        return f"{pad}let o : Svc := (o.start st.isOn).1\n" + _in_block(rest, kind, ind)
+    if s == "software.install()":
+        if kind == "svc":   # Software.install is a no-op for the lifecycle layer (class-specific set-up: DNSClient, DatabaseService)
+            return _in_block(rest, kind, ind)
+        return f"{pad}let o : App := (o.apply .install).1\n" + _in_block(rest, kind, ind)
+    if s == "software.operating_state = ApplicationOperatingState.CLOSED" and kind == "app":
+        return f"{pad}let o : App := (o.apply .forceClosed).1\n" + _in_block(rest, kind, ind)
+    if s == "self.software[software.name] = software":
+        return f"{pad}let st : Node := {{ st with software := dset c.name u st.software }}\n" + _in_block(rest, kind, ind)
+    if s == "self._software_class_to_name_map[software_class] = software.name":
+        return f"{pad}let st : Node := {{ st with classMap := dset c.cid c.name st.classMap }}\n" + _in_block(rest, kind, ind)
+    if s == "self.port_protocol_mapping[software.port, software.protocol] = software":
+        return f"{pad}let st : Node := {{ st with portMap := dset (c.port, c.proto) u st.portMap }}\n" + _in_block(rest, kind, ind)
+    raise Unsupported(f"statement of install ({kind}): " + s[:110])
+
+
+def install_methods() -> str:
+    ins = find_method(class_def(parse(SM), "SoftwareManager"), "install")
+    body = [s for s in ins.body if not (isinstance(s, ast.Expr) and isinstance(s.value, ast.Constant))]
+    g = body[0]
+    if not (isinstance(g, ast.If) and ast.unparse(g.test) == "software_class in self._software_class_to_name_map and software_config is None"
+            and not g.orelse and all(_is_log(x) or ast.unparse(x) == "return" for x in g.body) and ast.unparse(g.body[-1]) == "return"):
+        raise Unsupported("guard of install: " + ast.unparse(g)[:120])
+    if not _ctor_ok(body[1]):
+        raise Unsupported("constructor statement of install: " + ast.unparse(body[1])[:120])
+    out = ""
+    for kind, Obj, ctor in (("svc", "Svc", "{ sw := Soft.configured health fixDur }"),
+                            ("app", "App", "(if c.ctorRuns then ({ sw := Soft.configured health fixDur } : App).run n.isOn else { sw := Soft.configured health fixDur })")):
+        out += f"""/-- TRANSLATED statement by statement: `SoftwareManager.install(software_class, software_config)` for {'a Service' if kind == 'svc' else 'an Application'} class `c`
+(`cfg` = a configuration was passed; `listen`, `health`, `fixDur` = what the constructor reads from it or the class defaults; the
+constructor of an application class with `ctorRuns` calls `self.run()`); the new object `o` joins the heap as it is when the method
+returns; `none` = raises -/
+def installMethod{Obj} (n : Node) (c : Cls) (cfg : Bool) (listen : List Nat) (health : Health) (fixDur : Int) : Option Node :=
+  if (dhas c.cid n.classMap && !cfg) then some n else
+  let u : Nat := n.next
+  let o : {Obj} := {ctor}
+  let st : Node := n
+{_in_block(body[2:], kind, 1)}
+
+"""
+    return out
+
+
 def emit() -> str:
     cls = class_def(parse(SM), "SoftwareManager")
     un = find_method(cls, "uninstall")
@@ -174,7 +274,7 @@ def emit() -> str:
             raise Unsupported("install mutates a table through " + ast.unparse(st)[:80])
     return f"""import PrimaiteModel.Model.Registries
 namespace Primaite.Gen.SoftwareRegs
-open Primaite Primaite.Registries
+open Primaite Primaite.Lifecycle Primaite.Registries
 
 /-- TRANSLATED: what `SoftwareManager.uninstall(name)` does to `port_protocol_mapping` (`u` = the removed object, `key` = its
 `(port, protocol)`, `nameOf` = the `.name` of an object) -/
@@ -191,6 +291,6 @@ def installClassMap (name : String) (cid : String) (cm : List (String × String)
   {icm}
 
 {uninstall_method()}
-
+{install_methods()}
 end Primaite.Gen.SoftwareRegs
 """
